@@ -93,9 +93,10 @@ Theorem C03_step_chmod : forall (s : fsys) (sv : sview) (cs : list str) (mode : 
   = k_chmod s sv (abs_path cs) mode.
 Proof. exact dstep_chmod. Qed.
 
-(* write permission on the file (EACCES).  [file_privs_kept]: set-id bits not cleared (listed: C01-CHOWN-SETID) *)
+(* write permission on the file (EACCES); a user who is not an administrator clears the set-id bits of the file on
+   both sides ([drop_privs]; this was the deviation C01-CHOWN-SETID and a premise [file_privs_kept] until repaired) *)
 Theorem C03_step_truncate : forall (s : fsys) (sv : sview) (cs : list str) (size : Z),
-  dac_hyps s sv -> path_ok s sv SlEval cs -> file_privs_kept s sv cs ->
+  dac_hyps s sv -> path_ok s sv SlEval cs ->
   (fst (truncate s (sv_view sv) (abs_path cs) size), proj_res Linux (snd (truncate s (sv_view sv) (abs_path cs) size)))
   = k_truncate s sv (abs_path cs) size.
 Proof. exact dstep_truncate. Qed.
@@ -148,7 +149,6 @@ Proof. exact dstep_chdir. Qed.
    access mode, O_TRUNC needs write permission, a directory opens read-only *)
 Theorem C03_step_open_existing : forall (s : fsys) (sv : sview) (cs : list str) (flag perm : N) (vi : nat),
   dac_hyps s sv -> path_ok s sv SlEval cs -> has flag O_CREATE = false ->
-  (has flag O_TRUNC = true -> file_privs_kept s sv cs) ->
   open_sim (open_file s (sv_view sv) vi (abs_path cs) flag perm) (k_open s sv (abs_path cs) flag perm).
 Proof. exact dstep_open_nocreat. Qed.
 
@@ -156,7 +156,6 @@ Proof. exact dstep_open_nocreat. Qed.
 Theorem C03_step_open_create : forall (s : fsys) (sv : sview) (w : list str) (cl : str) (flag perm : N) (vi : nat),
   dac_hyps s sv -> path_ok s sv SlEval (w ++ [cl]) ->
   has flag O_CREATE = true -> has flag O_EXCL = false ->
-  (has flag O_TRUNC = true -> file_privs_kept s sv (w ++ [cl])) ->
   let p := abs_path (w ++ [cl]) in
   open_sim (open_file s (sv_view sv) vi p flag perm) (k_open s sv p flag perm).
 Proof. exact dstep_open_creat. Qed.
@@ -321,9 +320,14 @@ Theorem C03_created_owner_symlink : forall (s : fsys) (v : view) (oldname newnam
   \/ (snd (symlink s v oldname newname) <> ROk /\ fst (symlink s v oldname newname) = s).
 Proof. exact symlink_created. Qed.
 
+(* [metas_kept] / [meta_kept m' m]: same owner, same group, same mode outside the set-id bits, no bit added - a
+   truncation or a write by a user who is not an administrator clears the set-id bits of the file (file_remove_privs),
+   also those of a file WriteFile has just created with them in [perm]; [allocated_w]: one new node, every older
+   meta kept in that sense *)
 Theorem C03_created_owner_write_file : forall (s : fsys) (v : view) (name : str) (data : list N) (perm : N),
   metas_kept s (fst (write_file s v name data perm))
-  \/ allocated s (fst (write_file s v name data perm)) (file_meta v (parent_meta s (search_node s v name SlEval)) perm).
+  \/ exists m', allocated_w s (fst (write_file s v name data perm)) m'
+                /\ meta_kept m' (file_meta v (parent_meta s (search_node s v name SlEval)) perm).
 Proof. exact write_file_created. Qed.
 
 (* ---- non-vacuity (Fs/DacExamples.v, module DacTree: three ordinary users on a nine-node tree) -------------------------- *)
